@@ -1521,6 +1521,7 @@ Error query_rw_info(Arch arch, const BaseInst& inst, const Operand_* operands, s
 struct RegAnalysis {
   uint32_t reg_type_mask;
   uint32_t high_vec_used;
+  uint32_t mem_bcst_used;
 
   inline bool has_reg_type(RegType reg_type) const noexcept {
     return Support::bit_test(reg_type_mask, reg_type);
@@ -1530,6 +1531,7 @@ struct RegAnalysis {
 static RegAnalysis InstInternal_reg_analysis(const Operand_* operands, size_t op_count) noexcept {
   uint32_t mask = 0;
   uint32_t high_vec_used = 0;
+  uint32_t mem_bcst_used = 0;
 
   for (uint32_t i = 0; i < op_count; i++) {
     const Operand_& op = operands[i];
@@ -1541,7 +1543,8 @@ static RegAnalysis InstInternal_reg_analysis(const Operand_* operands, size_t op
       }
     }
     else if (op.is_mem()) {
-      const BaseMem& mem = op.as<BaseMem>();
+      const Mem& mem = op.as<Mem>();
+      mem_bcst_used |= uint32_t(mem.has_broadcast());
       if (mem.has_base_reg()) {
         mask |= Support::bit_mask<uint32_t>(mem.base_type());
       }
@@ -1552,7 +1555,7 @@ static RegAnalysis InstInternal_reg_analysis(const Operand_* operands, size_t op
     }
   }
 
-  return RegAnalysis { mask, high_vec_used };
+  return RegAnalysis { mask, high_vec_used, mem_bcst_used };
 }
 
 static inline uint32_t InstInternal_usesAvx512(InstOptions inst_options, const RegOnly& extra_reg, const RegAnalysis& reg_analysis) noexcept {
@@ -1560,7 +1563,8 @@ static inline uint32_t InstInternal_usesAvx512(InstOptions inst_options, const R
   uint32_t has_kmask = extra_reg.type() == RegType::kMask;
   uint32_t has_k_or_zmm = reg_analysis.reg_type_mask & Support::bit_mask<uint32_t>(RegType::kVec512, RegType::kMask);
 
-  return has_evex | has_kmask | has_k_or_zmm;
+  // Embedded broadcast {1toN} is only provided by EVEX encoding.
+  return has_evex | has_kmask | has_k_or_zmm | reg_analysis.mem_bcst_used;
 }
 
 Error query_features(Arch arch, const BaseInst& inst, const Operand_* operands, size_t op_count, CpuFeatures* out) noexcept {
